@@ -20,7 +20,7 @@ RULE = (
     "constructor arguments (user type > Fraction > Decimal > float > int; also two Vectors built from one list object that is edited afterwards), result type preservation and "
     "exact equality with independently computed formulas (float: within 4 ulp of the term magnitudes); "
     "(iii) int/float/Fraction vectors of magnitude 1e-6..1e6: |normalized|=1 (1e-12), same direction, length "
-    "vs exact sqrt (1e-12 rel), angle in [0,pi] equal to the atan2 reference (1e-7), also after a coordinate of an already measured vector was set with v[i]=x; zero() and unit vectors. "
+    "vs exact sqrt (1e-12 rel), angle in [0,pi] equal to the atan2 reference (1e-7) - including long vectors (1e3..1e6) whose tips are a few units apart, i.e. angles of 1e-6..1e-3 rad and pi minus that -, also after a coordinate of an already measured vector was set with v[i]=x; zero() and unit vectors. "
     "non-trivial = non-symmetric inputs (mixed signs or mixed types); distinct = distinct inputs."
 )
 ASSUMPTIONS = [
@@ -531,8 +531,19 @@ def gen_norm(draw, edit=False):
 
     V_ = (comp(), comp(), comp())
     assume(any(V_))
-    mode = draw(st.sampled_from(["free", "parallel", "antiparallel", "perp"]))
-    if mode == "free":
+    mode = draw(st.sampled_from(["free", "parallel", "antiparallel", "perp", "nearly-parallel"]))
+    if mode == "nearly-parallel":
+        # long vectors a few units apart at their tips: angles of 1e-6 .. 1e-3 rad (and pi minus that), where a
+        # cosine-based angle must still be good to the 1e-7 the reference is compared with
+        M = F(10) ** draw(st.sampled_from((3, 4, 5, 6)))
+        i = draw(st.integers(0, 2))
+        a = [F(draw(st.integers(-3, 3))) for _ in range(3)]
+        b = [F(draw(st.integers(-3, 3))) for _ in range(3)]
+        sgn = draw(st.sampled_from((1, 1, -1)))
+        a[i], b[i] = M, sgn * M
+        assume(not X.is_zero(X.cross(tuple(a), tuple(b))))
+        V_, W_ = tuple(a), tuple(b)
+    elif mode == "free":
         W_ = (comp(), comp(), comp())
     elif mode == "parallel":
         W_ = tuple(x * 3 for x in V_)
